@@ -72,6 +72,52 @@ impl Seek for ShortWriter {
     }
 }
 
+/// accepts `limit` bytes in total, then every write fails with an I/O error (fault injection)
+struct FailingWriter {
+    buf: Vec<u8>,
+    pos: usize,
+    limit: usize,
+}
+impl Write for FailingWriter {
+    fn write(&mut self, b: &[u8]) -> std::io::Result<usize> {
+        if b.is_empty() {
+            return Ok(0);
+        }
+        // overwriting bytes that were already accepted (RDLENGTH back-patch) is allowed; growing past `limit` is not
+        let available = if self.pos < self.buf.len() { self.buf.len() - self.pos } else { self.limit.saturating_sub(self.pos) };
+        if available == 0 {
+            return Err(std::io::Error::new(std::io::ErrorKind::Other, "injected write fault"));
+        }
+        let n = b.len().min(available);
+        for x in &b[..n] {
+            if self.pos < self.buf.len() {
+                self.buf[self.pos] = *x
+            } else {
+                self.buf.push(*x)
+            }
+            self.pos += 1;
+        }
+        Ok(n)
+    }
+    fn flush(&mut self) -> std::io::Result<()> {
+        Ok(())
+    }
+}
+impl Seek for FailingWriter {
+    fn seek(&mut self, p: SeekFrom) -> std::io::Result<u64> {
+        let np = match p {
+            SeekFrom::Start(o) => o as i64,
+            SeekFrom::End(o) => self.buf.len() as i64 + o,
+            SeekFrom::Current(o) => self.pos as i64 + o,
+        };
+        if np < 0 {
+            return Err(std::io::Error::new(std::io::ErrorKind::InvalidInput, "negative seek"));
+        }
+        self.pos = np as usize;
+        Ok(self.pos as u64)
+    }
+}
+
 const FILL: u8 = 0xA5;
 
 enum Outcome {
@@ -133,6 +179,16 @@ fn run_cfg(pk: &Packet, compressed: bool, cfg: &str, k: usize, cap: usize) -> Ou
                     pk.write_to(&mut c).map_err(|_| ())?;
                 }
                 Ok(c.into_inner())
+            }
+            (_, "failing") => {
+                // `cap` = number of bytes accepted before the injected fault
+                let mut w = FailingWriter { buf: Vec::new(), pos: 0, limit: cap };
+                if compressed {
+                    pk.write_compressed_to(&mut w).map_err(|_| ())?;
+                } else {
+                    pk.write_to(&mut w).map_err(|_| ())?;
+                }
+                Ok(w.buf)
             }
             (_, "short") => {
                 let mut w = ShortWriter { buf: vec![FILL; cap], pos: k, calls: 0 };
@@ -283,12 +339,16 @@ pub fn check_one(ctx: &mut Ctx, family: &str, idx: u64, p: &PktM) {
             cfgs.push(("short", k, 0));
             cfgs.push(("short", k, k + len + 17));
         }
+        // fault injection: the writer starts failing after `cap` bytes (a few positions incl. inside the header and the last byte)
+        for c in [0usize, 1, 11, 12, len / 3, len / 2, len.saturating_sub(1), len] {
+            cfgs.push(("failing", 0, c));
+        }
         for (cfg, k, cap) in cfgs {
             let wname = if compressed { "write_compressed_to" } else { "write_to" };
             let label = format!("{}/{}", wname, cfg);
             ctx.case(nontrivial, ph ^ fnv(format!("{}{}{}{}", label, k, cap, compressed).as_bytes()));
             ctx.add(&format!("writer_runs_{}", label), 1);
-            let fixed = matches!(cfg, "slice" | "cursor_slice" | "cursor_box");
+            let fixed = matches!(cfg, "slice" | "cursor_slice" | "cursor_box" | "failing");
             let fits = !fixed || cap >= len;
             let case = || gen_case(family, idx, p, json!({"writer": label, "start_offset": k, "capacity": cap, "message_len": len}));
             match run_cfg(&lib, compressed, cfg, k, cap) {
